@@ -29,5 +29,7 @@ impl<K: VKey, V> HashMap<K, V> {
             match r { Some(p) => old(self)@.contains_key(k.vkey()) && p == old(self)@[k.vkey()], None => !old(self)@.contains_key(k.vkey()) }
     { unimplemented!() }
     #[verifier::external_body]
+    pub fn len(&self) -> (r: usize) { unimplemented!() }
+    #[verifier::external_body]
     pub fn clear(&mut self) ensures final(self)@ == Map::<K::K, V>::empty(), final(self)@.dom().finite() { unimplemented!() }
 }
